@@ -1399,8 +1399,38 @@ def _mt_init(ck, repo, nf):
           "" if ok else (f"{aliased} shares one buffer object between tasks: additions to one task appear in the others" if aliased else "no task may be active before data has been added to it"), loc(fn._module, fn))
 
 
+def _mt_live_copy(ck, repo, nf):
+    """A member buffer created later than the constructor must not be a copy of a member that receives transitions: `deepcopy` of a live
+    member duplicates the transitions stored so far into the other task (additions then do not go only to the selected task)."""
+    cq = MT
+    hits = 0
+    for c in repo.mro(cq):
+        cn = repo.cls(c)
+        for meth in cn.body:
+            if not isinstance(meth, ast.FunctionDef) or meth.name in ("__init__", "__setstate__", "__getstate__", "__deepcopy__", "__copy__") or repo.method(cq, meth.name)[1] is not meth:
+                continue
+            mi = cn._module
+            for st in ast.walk(meth):
+                v = None
+                if isinstance(st, (ast.Assign, ast.AnnAssign)) and getattr(st, "value", None) is not None:
+                    tg = st.targets if isinstance(st, ast.Assign) else [st.target]
+                    if any(isinstance(t, ast.Subscript) and dotted(t.value) == "self.buffers" for t in tg):
+                        v = st.value
+                elif isinstance(st, ast.Call) and isinstance(st.func, ast.Attribute) and dotted(st.func.value) == "self.buffers" and st.func.attr in ("append", "insert") and st.args:
+                    v = st.args[-1]
+                if isinstance(v, ast.Call) and isinstance(v.func, (ast.Name, ast.Attribute)) and repo.resolve_expr(mi, v.func) in ("copy.deepcopy", "copy.copy") and len(v.args) >= 1:
+                    src = v.args[0]
+                    if isinstance(src, ast.Subscript) and dotted(src.value) == "self.buffers":
+                        hits += 1
+                        ck.ob("R5-task-routing", f"{cq}.{meth.name}", "member-from-live-buffer", False, short(st, 70),
+                              "a task's buffer is created as a copy of a member that receives transitions: whatever that member holds at that moment is "
+                              "duplicated into the other task (its batches then contain transitions that were never added to it)", loc(mi, st))
+    if not hits:
+        ck.ob("R5-task-routing", cq, "member-from-live-buffer", True, "no member buffer is copied from a live member outside the constructor", "", loc(repo.cls(cq)._module, repo.cls(cq)))
+
+
 def _multitask(ck, repo, nf):
-    for part in (_mt_owner, _mt_add, _mt_select, _mt_sample, _mt_len, _mt_init):
+    for part in (_mt_owner, _mt_add, _mt_select, _mt_sample, _mt_len, _mt_init, _mt_live_copy):
         ck.guard(part, ck, repo, nf)
 
 
@@ -1413,6 +1443,7 @@ def run(ck, repo: Repo, tier: str):
 _F = "rl_blox/blox/replay_buffer.py"
 _RING = "        for k, v in sample.items():\n            self.buffer[k][self.insert_idx] = v\n        self.insert_idx = (self.insert_idx + 1) % self.buffer_size\n        self.current_len = min(self.current_len + 1, self.buffer_size)\n\n    def sample_batch(\n        self, batch_size: int, rng: np.random.Generator\n    ) -> tuple[jnp.ndarray]:"
 MUTANTS = [
+    {"id": "c02-mt-lazy-member-from-live-buffer", "file": _F, "rule": "R5", "find": '        self.buffers[self.selected_task].add_sample(*args, **kwargs)\n        self.active_buffers.add(self.selected_task)\n', "replace": '        if len(self.buffers[self.selected_task]) == 0 and self.selected_task not in self.active_buffers:\n            self.buffers[self.selected_task] = copy.deepcopy(self.buffers[0])\n        self.buffers[self.selected_task].add_sample(*args, **kwargs)\n        self.active_buffers.add(self.selected_task)\n'},
     {"id": "c02-positional-batch-storage-rebuilt", "file": _F, "rule": "R2", "edits": [("        indices = rng.integers(0, self.current_len, batch_size)\n        return self.Batch(\n            **{k: jnp.asarray(self.buffer[k][indices]) for k in self.buffer}\n        )", "        indices = rng.integers(0, self.current_len, batch_size)\n        return self.Batch(\n            *(jnp.asarray(v[indices]) for v in self.buffer.values())\n        )"), ("        if self.current_len == 0:\n            for k, v in sample.items():\n                assert k in self.buffer, f\"{k} not in {self.buffer.keys()}\"\n                self.buffer[k] = np.empty(\n                    (self.buffer_size,) + np.asarray(v).shape,\n                    dtype=self.buffer[k].dtype,\n                )\n        for k, v in sample.items():\n            self.buffer[k][self.insert_idx] = v\n        self.insert_idx =", "        if self.current_len == 0:\n            storage = OrderedDict()\n            for k, v in sample.items():\n                storage[k] = np.empty(\n                    (self.buffer_size,) + np.asarray(v).shape,\n                    dtype=self.buffer[k].dtype,\n                )\n            self.buffer = storage\n        for k, v in sample.items():\n            self.buffer[k][self.insert_idx] = v\n        self.insert_idx =")]},
     {"id": "c02-integers-low-one", "file": _F, "rule": "R3", "find": "        indices = rng.integers(0, self.current_len, batch_size)", "replace": "        indices = rng.integers(1, self.current_len, batch_size)"},
     {"id": "c02-mt-shared-buffers", "file": _F, "rule": "R5", "find": "            self.buffers.append(copy.deepcopy(replay_buffer))", "replace": "            self.buffers.append(replay_buffer)"},
